@@ -160,8 +160,10 @@ package group
 //@ func AddClient
 //@   props C10 C13 C14
 //@   requires nonnil: c != nil && ref(c) != 0
+//@   requires token-store-free: !held(token.tokens.mu)
 //@   modifies groups.groups[*], groups.groups, lookup(group).description, lookup(group).locked, lookup(group).clients[*], lookup(group).timestamp, held(lookup(group).mu),
-//@        object(c), ghostint("inits", c)
+//@        object(c), ghostint("inits", c), held(token.tokens.mu), token.tokens.modTime, token.tokens.fileSize, token.tokens.tokens
+//@   ensures token-store-free: !held(token.tokens.mu)
 //@   -- C10/C11: a refused client is left exactly as it was
 //@   ensures refused-unchanged: !isnil(result1) ==> unchangedobject(c)
 //@   invariant loop 1 range: -1 <= rangeindex$1 && rangeindex$1 < len(clients)
@@ -656,14 +658,17 @@ package group
 //@   safe
 //@   props C08 C09 C10 C12
 //@   requires nonnil: desc != nil
-//@   modifies nothing
+//@   requires token-store-free: !held(token.tokens.mu)
+//@   -- (looking a stateful token up may reload the token file)
+//@   modifies held(token.tokens.mu), token.tokens.modTime, token.tokens.fileSize, token.tokens.tokens
+//@   ensures token-store-free: !held(token.tokens.mu)
 //@   ensures neither: creds.Token == "" && creds.Username == nil ==> result2 != nil
 //@   ensures refused-empty: result2 != nil ==> result0 == "" && isnil(result1)
 //@   -- C08: a password login succeeds iff getPasswordPermission admits the credentials (its contract: the entry's password, or, only without
 //@   -- an entry, the wildcard user's) and the name is acceptable; under the name given; with exactly what the matched record grants in this group
-//@   ensures password-iff: creds.Token == "" && creds.Username != nil ==> (result2 == nil) == (gppok(desc, creds) && validUsername(*creds.Username))
+//@   ensures password-iff: creds.Token == "" && creds.Username != nil ==> (result2 == nil) == (old(gppok(desc, creds)) && validUsername(*creds.Username))
 //@   ensures password-name: creds.Token == "" && result2 == nil ==> creds.Username != nil && result0 == *creds.Username
-//@   ensures password-grants: creds.Token == "" && result2 == nil ==> grants(gppperm(desc, creds), desc, result1)
+//@   ensures password-grants: creds.Token == "" && result2 == nil ==> grants(old(gppperm(desc, creds)), desc, result1)
 //@   -- C09: a token is checked against the group being joined, and grants exactly what the check returned;
 //@   -- the token's username wins, and a name chosen by the client never shadows a configured user
 //@   assert at call Check this-group: arg_group == groupname && arg_host == first(callresult("GetConfiguration", 1)).CanonicalHost
